@@ -56,11 +56,11 @@ R = [(r'contextNode->getNodeType\(\)', 'xv_node_type(contextNode)', 1),
      (r'const XalanDOMString&\s+theNamespaceURI = contextNode->getNamespaceURI\(\);', '', 1),
      (r'const XalanDOMString&\s+theNodeName = (?:contextNode|theAttribute)->getNodeName\(\);', '', 2),
      (r'theNamespaceURI\.empty\(\) == true', 'xv_ns_empty(contextNode) == true', 1),
-     (r'theNodeName\.length\(\) != contextNode->getLocalName\(\)\.length\(\)', 'xv_name_has_prefix(contextNode)', 1),
+     (r'theNodeName\.length\(\) != contextNode->getLocalName\(\)\.length\(\)', 'xv_name_has_prefix(contextNode)', (1, 2)),
      (r'executionContext\.createMatchPattern\(theNodeName, \*this\)', 'xv_create(executionContext, false, P_NODE_NAME, R_SELF)', 1),
-     (r'const XalanElement\* const\s+theElement =\s*static_cast<const XalanElement\*>\(contextNode\);', '', 1),
-     (r'const ElementPrefixResolverProxy\s+theProxy\(\s*theElement,\s*executionContext\.getMemoryManager\(\)\);', 'const int theProxy = R_ELEMENT_PROXY;', 1),
-     (r'executionContext\.createMatchPattern\(theNodeName, theProxy\)', 'xv_create(executionContext, false, P_NODE_NAME, theProxy)', 1),
+     (r'const XalanElement\* const\s+theElement =\s*static_cast<const XalanElement\*>\(contextNode\);', '', (0, 1)),
+     (r'const ElementPrefixResolverProxy\s+theProxy\(\s*theElement,\s*executionContext\.getMemoryManager\(\)\);', 'const int theProxy = R_ELEMENT_PROXY;', (0, 1)),
+     (r'executionContext\.createMatchPattern\(theNodeName, theProxy\)', 'xv_create(executionContext, false, P_NODE_NAME, theProxy)', (0, 1)),
      (r'const GetCachedString\s+thePrefix\(executionContext\);\s*executionContext\.getUniqueNamespaceValue\(thePrefix\.get\(\)\);', '', 1),
      (r'const GetCachedString\s+theMatchPatternString\(executionContext\);', '', 3),
      (r'theMatchPatternString\.get\(\)\.assign\(thePrefix\.get\(\)\);', 'xv_restart(P_UNIQUE_PREFIX);', 1),
